@@ -32,6 +32,7 @@ impl PanicRecord {
         let mut out = String::new();
         let mut last_hash = false;
         for ch in self.msg.chars() {
+            let ch = if ch == '\n' || ch == '\t' { ' ' } else { ch };
             if ch.is_ascii_hexdigit() && (ch.is_ascii_digit() || last_hash) {
                 if !last_hash {
                     out.push('#');
